@@ -5,6 +5,7 @@ use serde_json::Value;
 
 pub mod c01;
 pub mod c02;
+pub mod c02h3;
 pub mod c02socks;
 pub mod c03;
 pub mod c03conn;
@@ -24,6 +25,7 @@ pub mod c13bin;
 pub mod c14;
 pub mod c14tls;
 pub mod c15;
+pub mod c15fwd;
 pub mod c16;
 pub mod c17;
 pub mod c18;
